@@ -23,7 +23,7 @@ from .c11_oscore import make, wire, SECRET, SALT
 PROP = "C13"
 LEVEL = "fault_enumeration"
 RULE = ("fault enumeration: histories over {P protect request, A(n) accept genuine request n in {0,1,5}, AE(n) accept with fresh Echo, R "
-        "respond to the last accepted request (twice: reuse then own number), S clean stop + reload, X plant a stray temp file} up to "
+        "respond to the last accepted request (twice: reuse then own number), Q / QP own request answered by the peer without / with its own Partial IV, S clean stop + reload, X plant a stray temp file} up to "
         "length L, chunk sizes start in {1,2,3,10} x limit in {4,10000}; for every history, every file-system effect k of every operation "
         "and every mode (before / after / half-written) one run with the process dying there, then reload and continue; plus "
         "exhaustion histories starting at 2^40-3..2^40-1. distinct = distinct (history, crash point)")
@@ -154,6 +154,8 @@ class Run:
         self.unclean = False      # a crash happened after a request was accepted since the last clean store
         self.accepted_since_clean = False
         self.trace = []
+        self.fresh_n = 6          # numbers the peer uses for requests / responses it generates afresh (above 0, 1, 5)
+        self.floor = -1           # highest peer number the window was legitimately re-initialised at
         try:
             self.load()
         except BaseException:
@@ -215,8 +217,8 @@ class Run:
             n = op[1]
             if op[0] == "AE":
                 # a fresh Echo exchange is a *new* request of the peer: it carries a number the peer has not used before
-                self.ae_count = getattr(self, "ae_count", 0) + 1
-                n = op[1] + self.ae_count
+                self.fresh_n += 1
+                n = self.fresh_n
             self.peer.sender_sequence_number = n
             m = Message(code=codes.GET, uri_path=["y"])
             if op[0] == "AE":
@@ -237,11 +239,11 @@ class Run:
                 self.accepted_since_clean = True
                 self.last_rid = rid
             else:
-                fresh = not self.accepted_ever or n > max(self.accepted_ever)
+                fresh = (not self.accepted_ever or n > max(self.accepted_ever)) and n > self.floor
                 initialised = c.recipient_replay_window.is_initialized()
                 if fresh and initialised and op[0] == "A" and n not in self.accepted_ever:
                     self.viol("fresh-request-refused", "accepted", "refused", "oscore.py:FilesystemSecurityContext", "fresh")
-                if op[0] == "AE" and n not in self.accepted_ever and (not self.accepted_ever or n > max(self.accepted_ever)):
+                if op[0] == "AE" and n not in self.accepted_ever and (not self.accepted_ever or n > max(self.accepted_ever)) and n > self.floor:
                     self.viol("echoed-request-refused", "accepted after echoing this process's value", "refused", "oscore.py:unprotect", "echo")
         elif op[0] == "R":
             if self.last_rid is None:
@@ -249,6 +251,32 @@ class Run:
             for i in range(2):
                 outer, _ = c.protect(Message(code=codes.CONTENT, payload=b"r"), request_id=self.last_rid)
                 self.note_issue(self.number_of(outer))
+        elif op[0] in ("Q", "QP"):
+            # this node in the client role: an own request, answered by the peer without (Q) or with (QP) a Partial IV of its own
+            try:
+                outer, myrid = c.protect(Message(code=codes.GET, uri_path=["q"]))
+            except o.ContextUnavailable:
+                self.trace.append("   protect refused (exhausted)")
+                return "exhausted"
+            self.note_issue(self.number_of(outer))
+            w, _ = wire(outer)
+            _, prid = self.peer.unprotect(w)
+            if op[0] == "QP":
+                prid.can_reuse_nonce = False
+                # the peer's numbers only ever grow: its own Partial IV is above everything it has sent before
+                self.fresh_n += 1
+                self.peer.sender_sequence_number = self.fresh_n
+            was_initialised = c.recipient_replay_window.is_initialized()
+            router, _ = self.peer.protect(Message(code=codes.CONTENT, payload=b"a"), request_id=prid)
+            rw, _ = wire(router)
+            try:
+                inner, _ = c.unprotect(rw, myrid)
+                self.trace.append("   response to own request accepted")
+                if op[0] == "QP" and not was_initialised:
+                    # a fresh response carrying the peer's own number legitimately re-initialises the window at that number
+                    self.floor = self.fresh_n
+            except o.ProtectionInvalid as e:
+                self.viol("own-response-refused", "accepted", core.exc_desc(e), "oscore.py:unprotect", "ownresp")
         elif op[0] == "S":
             c._destroy()
             self.ctx = None
@@ -322,7 +350,7 @@ def execute(history, start, limit, plan, seq_json=None):
     return r, per_op, names
 
 
-OPS = [("P",), ("A", 0), ("A", 1), ("A", 5), ("AE", 6), ("R",), ("S",), ("X",)]
+OPS = [("P",), ("A", 0), ("A", 1), ("A", 5), ("AE", 6), ("R",), ("S",), ("X",), ("Q",), ("QP",)]
 
 
 def check_history(res, history, start, limit, seq_json=None, crashes=True, double=False):
